@@ -276,6 +276,8 @@ def run(ctx):
                         if extra:
                             r.violate(key + "|grows", f"{key} ({ent[1]}) gained a growth site outside the reviewed ones {ent[2]}: {extra}", a["span"])
     r.analysed["auto_classified_unreviewed_fields"] = auto
+    # the uncharged per-name index (finding F7) is at least bounded by the nesting depth: entries go away at zero
+    sm.clause_open_name_counts_shrinks(r, mir)
     # ------------------------------------------------------------------ R10.5
     r = ctx.rule("R10.5", "one limiter per rewriter: SharedMemoryLimiter::new is called once, in HtmlRewriter::new, and the same limiter is handed to the selector VM stack and to the parsing buffer", "E-MIR", floor=3)
     callers = [(f, bi, t) for f, bi, t in mir.callers_of(r"SharedMemoryLimiter::new$") if not mir.is_test_fn(f)]
